@@ -1,7 +1,8 @@
 (* The s-expression interface of the executable model: one entry point, used by the
    extracted OCaml runner and by the in-Coq vm_compute cross-check on identical input. *)
 From PS Require Import Lib.Base Generated.Consts Model.SdTypes Model.Config.
-From PS Require Import Spec.C19Spec.
+From PS Require Import Lib.Struct Model.Someip Model.SdCodec Model.Session Model.ServiceRecv.
+From PS Require Import Spec.C19Spec Spec.C07Spec Spec.C16Spec Spec.C01Spec.
 
 Definition bad : sexp := L [A 255; A 255; A 255].
 
@@ -27,6 +28,67 @@ Definition dispatch_config (op : N) (arg : sexp) : option sexp :=
   | _, _ => None
   end.
 
+Definition s_pair {X Y} (f : X -> sexp) (g : Y -> sexp) (p : X * Y) : sexp := L [f (fst p); g (snd p)].
+Definition s_err (e : err) : sexp := A (err_code e).
+Definition s_split (r : list someip * option err) : sexp := L [slist s_msg (fst r); sopt s_err (snd r)].
+
+Definition dispatch_codec (op : N) (arg : sexp) : option sexp :=
+  match op, arg with
+  | 101, m => let? m' := d_msg m in Some (sres B (build_msg m'))
+  | 102, b => let? b' := dB b in Some (sres (s_pair s_msg B) (parse_msg b'))
+  | 103, b => let? b' := dB b in Some (s_split (datagram_split b'))
+  | 104, b => let? b' := dB b in Some (sres (s_pair s_msg B) (read_msg b'))
+  | 105, b => let? b' := dB b in Some (s_split (stream_split b'))
+  | 111, m => let? m' := d_msg m in Some (B (spec_layout m'))
+  | 112, m => let? m' := d_msg m in Some (sbool (wf_msgb m'))
+  | 201, o => let? o' := d_opt o in Some (sres B (build_option o'))
+  | 202, b => let? b' := dB b in Some (sres (s_pair s_opt B) (parse_option b'))
+  | 203, e => let? e' := d_entry e in Some (sres B (build_entry e'))
+  | 204, L [b; A n] => let? b' := dB b in Some (sres (s_pair s_entry B) (parse_entry b' n))
+  | 205, h => let? h' := d_sd h in Some (sres s_sd (assign_sd h'))
+  | 206, h => let? h' := d_sd h in Some (sres s_sd (resolve_sd h'))
+  | 207, h => let? h' := d_sd h in Some (sres B (build_sd h'))
+  | 208, b => let? b' := dB b in Some (sres (s_pair s_sd B) (parse_sd b'))
+  | 209, h => let? h' := d_sd h in Some (sres B (do a <- assign_sd h'; build_sd a))
+  | 210, b => let? b' := dB b in
+              Some (sres (s_pair s_sd B) (do (h, r) <- parse_sd b'; do h' <- resolve_sd h; Ok (h', r)))
+  | 211, L [h; n] => let? h' := dlist d_opt h in let? n' := dlist d_opt n in
+                     Some (sres (sopt A) (find_run h' n'))
+  | _, _ => None
+  end.
+
+Definition d_rx (s : sexp) : option rx :=
+  match s with
+  | L [A a; mc; f; A sid] => let? mc' := dbool mc in let? f' := dbool f in Some (a, mc', f', sid)
+  | _ => None
+  end.
+Definition d_dest (s : sexp) : option dest := dopt dN s.
+Definition s_fi (v : bool * N) : sexp := L [sbool (fst v); A (snd v)].
+
+Definition dispatch_session (op : N) (arg : sexp) : option sexp :=
+  match op with
+  | 701 => let? h := dlist d_rx arg in Some (slist sbool (run_check sess_init h))
+  | 702 => let? h := dlist d_rx arg in Some (slist sbool (spec_detect h))
+  | 703 => let? h := dlist d_rx arg in Some (slist sbool (f12_positions h))
+  | 801 => let? ds := dlist d_dest arg in Some (slist s_fi (run_assign sess_init ds))
+  | _ => None
+  end.
+
+Definition dispatch_service (op : N) (arg : sexp) : option sexp :=
+  match op, arg with
+  | 1601, L [A svc; A ver; ms; m; mc; h] =>
+      let? ms' := dlist dN ms in let? m' := d_msg m in let? mc' := dbool mc in let? h' := d_hres h in
+      let r := service_receive svc ver ms' m' mc' h' in
+      Some (L [sopt s_msg (fst r); sbool (snd r)])
+  | 1602, L [A svc; A ver; ms; m; mc; h] =>
+      let? ms' := dlist dN ms in let? m' := d_msg m in let? mc' := dbool mc in let? h' := d_hres h in
+      Some (sopt s_msg (spec_reply svc ver ms' m' mc' h'))
+  | _, _ => None
+  end.
+
 Definition dispatch (op : N) (arg : sexp) : sexp :=
   if (1900 <? op) && (op <? 2000) then of_opt (dispatch_config op arg)
+  else if (100 <? op) && (op <? 300) then of_opt (dispatch_codec op arg)
+  else if (700 <? op) && (op <? 900) then of_opt (dispatch_session op arg)
+  else if (1600 <? op) && (op <? 1700) then of_opt (dispatch_service op arg)
   else bad.
